@@ -339,6 +339,7 @@ macro_rules! enc_mov {
             let want = two_byte(0x10, Some(&d), &s);
             let got = compile_instruction_mov(d, s);
             vassert!(items_match(&got, &want), "C02.E.mov.items-are-documented-encoding");
+            std::mem::forget(got);
         }
     };
 }
@@ -356,6 +357,9 @@ macro_rules! enc_ds {
             let want = two_byte(b2, Some(&d), &s);
             let got = from_bases_dst_and_src(0xF0, b2, &d, &s);
             vassert!(items_match(&got, &want), "C02.E.ds.items-are-documented-encoding");
+            std::mem::forget(got);
+            std::mem::forget(d);
+            std::mem::forget(s);
         }
     };
 }
@@ -370,6 +374,8 @@ macro_rules! enc_s {
             let want = two_byte(b2, None, &s);
             let got = from_bases_and_src(0xF0, b2, &s);
             vassert!(items_match(&got, &want), "C02.E.s.items-are-documented-encoding");
+            std::mem::forget(got);
+            std::mem::forget(s);
         }
     };
 }
@@ -400,6 +406,36 @@ enc_ds!(c02_e_ds_4_5, 4, 5);
 enc_s!(c02_e_s_0, 0);
 enc_s!(c02_e_s_4, 4);
 enc_s!(c02_e_s_5, 5);
+enc_mov!(c02_e_mov_0_3, 0, 3);
+enc_mov!(c02_e_mov_0_7, 0, 7);
+enc_mov!(c02_e_mov_3_3, 3, 3);
+enc_mov!(c02_e_mov_3_7, 3, 7);
+enc_mov!(c02_e_mov_4_7, 4, 7);
+enc_mov!(c02_e_mov_0_1, 0, 1);
+enc_mov!(c02_e_mov_0_2, 0, 2);
+enc_mov!(c02_e_mov_0_6, 0, 6);
+enc_mov!(c02_e_mov_2_0, 2, 0);
+enc_ds!(c02_e_ds_2_0, 2, 0);
+enc_mov!(c02_e_mov_2_4, 2, 4);
+enc_ds!(c02_e_ds_2_4, 2, 4);
+enc_mov!(c02_e_mov_2_5, 2, 5);
+enc_ds!(c02_e_ds_2_5, 2, 5);
+enc_mov!(c02_e_mov_3_1, 3, 1);
+enc_mov!(c02_e_mov_3_2, 3, 2);
+enc_mov!(c02_e_mov_3_6, 3, 6);
+enc_mov!(c02_e_mov_4_1, 4, 1);
+enc_mov!(c02_e_mov_4_2, 4, 2);
+enc_mov!(c02_e_mov_4_6, 4, 6);
+enc_mov!(c02_e_mov_5_0, 5, 0);
+enc_ds!(c02_e_ds_5_0, 5, 0);
+enc_mov!(c02_e_mov_5_4, 5, 4);
+enc_ds!(c02_e_ds_5_4, 5, 4);
+enc_mov!(c02_e_mov_5_5, 5, 5);
+enc_ds!(c02_e_ds_5_5, 5, 5);
+enc_s!(c02_e_s_1, 1);
+enc_s!(c02_e_s_2, 2);
+enc_s!(c02_e_s_6, 6);
+enc_s!(c02_e_s_7, 7);
 
 /// The mode / register field functions for every operand shape (pure functions).
 #[cfg_attr(kani, kani::proof)]
@@ -607,6 +643,6 @@ pub(crate) fn c02_canary() {
 }
 
 crate::replay_table!(verif_replay_c02;
-    c02_p_clr, c02_p_inc, c02_p_dec, c02_p_add, c02_p_adc, c02_p_sub, c02_p_mul, c02_p_div, c02_p_xor, c02_p_and, c02_p_or, c02_p_neg, c02_p_com, c02_p_tst, c02_p_lsr, c02_p_asr, c02_p_lsl, c02_p_rrc, c02_p_rlc, c02_p_push, c02_p_pop, c02_p_pushf, c02_p_popf, c02_p_ret, c02_p_reti, c02_p_stop, c02_p_nop, c02_p_ei, c02_p_di, c02_p_jmp, c02_p_jr, c02_p_call, c02_p_jcs, c02_p_jcc, c02_p_jzs, c02_p_jzc, c02_p_jns, c02_p_jnc, c02_p_dec_ind, c02_p_dec_inc, c02_p_dec_dinc, c02_p_dec_const, c02_p_dec_abs, c02_d_org, c02_d_byte, c02_d_stacksize, c02_d_programsize, c02_e_mov_0_0, c02_e_ds_0_0, c02_e_mov_0_4, c02_e_ds_0_4, c02_e_mov_0_5, c02_e_ds_0_5, c02_e_mov_1_0, c02_e_ds_1_0, c02_e_mov_1_4, c02_e_ds_1_4, c02_e_mov_1_5, c02_e_ds_1_5, c02_e_mov_3_0, c02_e_ds_3_0, c02_e_mov_3_4, c02_e_ds_3_4, c02_e_mov_3_5, c02_e_ds_3_5, c02_e_mov_4_0, c02_e_ds_4_0, c02_e_mov_4_4, c02_e_ds_4_4, c02_e_mov_4_5, c02_e_ds_4_5, c02_e_s_0, c02_e_s_4, c02_e_s_5,
+    c02_p_clr, c02_p_inc, c02_p_dec, c02_p_add, c02_p_adc, c02_p_sub, c02_p_mul, c02_p_div, c02_p_xor, c02_p_and, c02_p_or, c02_p_neg, c02_p_com, c02_p_tst, c02_p_lsr, c02_p_asr, c02_p_lsl, c02_p_rrc, c02_p_rlc, c02_p_push, c02_p_pop, c02_p_pushf, c02_p_popf, c02_p_ret, c02_p_reti, c02_p_stop, c02_p_nop, c02_p_ei, c02_p_di, c02_p_jmp, c02_p_jr, c02_p_call, c02_p_jcs, c02_p_jcc, c02_p_jzs, c02_p_jzc, c02_p_jns, c02_p_jnc, c02_p_dec_ind, c02_p_dec_inc, c02_p_dec_dinc, c02_p_dec_const, c02_p_dec_abs, c02_d_org, c02_d_byte, c02_d_stacksize, c02_d_programsize, c02_e_mov_0_0, c02_e_ds_0_0, c02_e_mov_0_4, c02_e_ds_0_4, c02_e_mov_0_5, c02_e_ds_0_5, c02_e_mov_1_0, c02_e_ds_1_0, c02_e_mov_1_4, c02_e_ds_1_4, c02_e_mov_1_5, c02_e_ds_1_5, c02_e_mov_3_0, c02_e_ds_3_0, c02_e_mov_3_4, c02_e_ds_3_4, c02_e_mov_3_5, c02_e_ds_3_5, c02_e_mov_4_0, c02_e_ds_4_0, c02_e_mov_4_4, c02_e_ds_4_4, c02_e_mov_4_5, c02_e_ds_4_5, c02_e_s_0, c02_e_s_4, c02_e_s_5, c02_e_mov_0_3, c02_e_mov_0_7, c02_e_mov_3_3, c02_e_mov_3_7, c02_e_mov_4_7, c02_e_mov_0_1, c02_e_mov_0_2, c02_e_mov_0_6, c02_e_mov_2_0, c02_e_ds_2_0, c02_e_mov_2_4, c02_e_ds_2_4, c02_e_mov_2_5, c02_e_ds_2_5, c02_e_mov_3_1, c02_e_mov_3_2, c02_e_mov_3_6, c02_e_mov_4_1, c02_e_mov_4_2, c02_e_mov_4_6, c02_e_mov_5_0, c02_e_ds_5_0, c02_e_mov_5_4, c02_e_ds_5_4, c02_e_mov_5_5, c02_e_ds_5_5, c02_e_s_1, c02_e_s_2, c02_e_s_6, c02_e_s_7,
     c02_field_encoders, c02_canary,
 );
